@@ -9,7 +9,11 @@ trap 'git -C /repo checkout -- . ' EXIT
 echo "tests: $(cd /repo && /venv/bin/python -m pytest -q -p no:cacheprovider 2>&1 | tail -1)"
 PYTHONPATH=/repo/src timeout 300 /venv/bin/python "$d/demo.py" > /tmp/demo.out 2>&1; echo "demo with change: exit $?"
 for p in "$@"; do
+  # the evidence and replay files of the unchanged tree are kept: a run against a seeded change must not overwrite them
+  cp -f evidence/$p.json /tmp/evidence_$p.bak 2>/dev/null
   timeout 3000 bin/check $p --tier quick 2>&1 | grep -E "^(VIOLATION|OK|FAIL|KNOWN)" | head -5
+  mkdir -p seeded/_runs; cp -f replays/$p-quick-1.json "$d/replay-found.json" 2>/dev/null
+  cp -f /tmp/evidence_$p.bak evidence/$p.json 2>/dev/null; rm -f /tmp/evidence_$p.bak
 done
 git -C /repo checkout -- .
 trap - EXIT
